@@ -14,7 +14,18 @@ Round 2: (i) "session" cases run several constructions (SqliteStorage of either 
 custom path, PeeweeStorage opened beforehand) in ONE interpreter; every SqliteStorage step is judged like a
 construction in a fresh interpreter (expand()).  (ii) Large legacy buckets (harness/c14_gen.py: thousands to
 tens of thousands of events, ties / touching / overlapping events at every instant) for copies that read a
-bucket in several pieces.  Every legacy store is written by a process of its own (fork in the build child)."""
+bucket in several pieces.  Every legacy store is written by a process of its own (fork in the build child).
+
+Round 5: the legacy files are written through TODAY's PeeweeStorage, so every row and the file itself have the shape
+today's code produces.  Store field "raw" = steps of harness/c14_gen.apply_raw, run with plain sqlite3 on the finished
+file: the same content (checked by the harness's own reading of the legacy schema) in the other shapes the schema and
+the legacy reader admit -- the rows copied into a new file with the RELEASED schema and sqlite defaults ("rebuild": no
+dependence on what the PeeweeStorage under test does to a file it creates or opens), bucket datastr NULL / '' /
+'{ }', other JSON texts of the same value (compact, raw UTF-8, key order, whitespace), `created` / event timestamps in
+other ISO 8601 texts of the same instant, shifted / reversed row ids and bucket keys, event rows of no bucket, rollback
+journal vs WAL, page sizes, auto_vacuum, header fields, free pages, extra table / column / index, missing index (older
+schema).  Judged by the unchanged oracle (expected content = the dump taken through the API before the rewrite;
+legacy bytes, and now also the modification time, unchanged)."""
 import hashlib
 import json
 import os
@@ -49,6 +60,14 @@ RULE = ("large legacy buckets first (quick: one of 10-22 k events, one of 5-7.5 
         "ones): every SqliteStorage step is judged like a construction in a fresh interpreter (model and oracle, "
         "with the directory listing and legacy fingerprints taken right before / after the step), and a store left "
         "open is read again at the end of the process.  Every legacy store is written by a process of its own.  "
+        "Round 5: legacy files in shapes today's writer never produces -- after the build the file is rewritten with "
+        "plain sqlite3 into another representation of the SAME content (harness's own reading of the schema checks "
+        "that): rows copied into a new file with the released schema and sqlite defaults, bucket datastr NULL / '' / "
+        "'{ }', other JSON texts of the same values, created / timestamp texts of the same instants ('T' or space, Z, "
+        "offsets, explicit fraction), shifted / reversed ids and keys, orphan event rows, rollback journal / WAL, page "
+        "sizes 512..65536, auto_vacuum, header fields, free pages, extra table / column / index, missing index; 31 "
+        "fixed cases + on 45 % of the random stores, 40 % of the session stores, half of the large buckets; expected "
+        "content stays the API dump taken before the rewrite, legacy bytes and mtime must not change.  "
         "Second stream: detect_db_files / check_for_migration on generated listings.")
 
 ERR = {"KeyError": 4, "ValueError": 5, "IndexError": 6, "AttributeError": 7, "TypeError": 8, "IntegrityError": 9}
@@ -1380,7 +1399,14 @@ def main(argv=None):
         "instants and durations as exact integer microseconds; generated events lie in 2020..2021 (sqlite's unwindowed "
         "get_events hides events that end before 1970: C03's concern, not the copy's)",
         "PeeweeStorage.__init__ (create_table(safe=True), auto_migrate) is I/O outside the model: covered by the SHA-256 "
-        "oracle on legacy files written by the current PeeweeStorage (schema with datastr) only",
+        "+ mtime oracle on legacy files with the current schema (tables with datastr, peewee's three indexes), written by "
+        "the current PeeweeStorage and rewritten by the harness into the other representations of the same content "
+        "(coverage: raw:*); files of an older schema (no datastr column, a missing index) are upgraded in place by "
+        "PeeweeStorage itself and are judged at content level",
+        "legacy content = what the unchanged legacy reader accepts: `created` texts that peewee's DateTimeField turns "
+        "into a datetime ('YYYY-MM-DD HH:MM:SS[.ffffff]' without offset, 'YYYY-MM-DD') make BucketModel.json raise "
+        "(iso8601.parse_date of a datetime) and are not generated; nor are non-object JSON in bucketmodel.datastr and "
+        "non-numeric duration texts (the DECIMAL column's NUMERIC affinity stores every decimal text as INTEGER/REAL)",
         "the row-by-row comparison with the extracted model is made for cases of up to 2500 events (quick) / 6500 "
         "(thorough): the extracted store models sort by insertion and are quadratic; larger buckets are judged by the "
         "property oracle alone (count in coverage: oracle-only ..)",
@@ -1399,7 +1425,8 @@ def main(argv=None):
         "detect_db_files / check_for_migration": "A+B",
         "SqliteStorage.__init__ guard, default file names, commit after migration": "A+B",
         "pw_step / sq_step (the stores themselves)": "A (here and in C02)",
-        "PeeweeStorage.__init__ (create_table, auto_migrate)": "oracle only (SHA-256 / content dump of the legacy file)"}
+        "PeeweeStorage.__init__ (create_table, auto_migrate)": "oracle only (SHA-256 + mtime / content dump of the legacy file, "
+                                                              "on files in released and rewritten shapes)"}
     return ck.finish(RULE)
 
 
